@@ -212,7 +212,7 @@ Proof.
   - destruct srest as [|h srest]; [simpl in Hl; lia|].
     simpl. destruct (IH srest (step_applied r h) (tbl_put t (step_applied r h))) as
         (r' & t' & es & Hrun & Hj & Ha & Ht & Hv & Hh & Hne & Hnil & Hoth); [simpl in Hl; lia|].
-    rewrite Hrun. exists r', t', (EExec v s true :: EWrite (step_applied r h) true :: es).
+    rewrite Hrun. exists r', t', (EExec v (r_applied r) s true :: EWrite (step_applied r h) true :: es).
     split; [reflexivity|]. simpl. rewrite Hj. simpl in *.
     repeat split; auto; try lia; try congruence.
     + rewrite Hh, <- app_assoc. reflexivity.
@@ -297,14 +297,14 @@ Qed.
 Lemma journal_app (a b : list (event hash)) : journal (a ++ b) = journal a ++ journal b.
 Proof.
   induction a as [|e a IH]; simpl; [reflexivity|].
-  destruct e as [v s [|]|r ok]; simpl; rewrite IH; reflexivity.
+  destruct e as [v i s [|]|r ok]; simpl; rewrite IH; reflexivity.
 Qed.
 
 Lemma exec_events_app (a b : list (event hash)) :
   exec_events (a ++ b) = exec_events a ++ exec_events b.
 Proof.
   induction a as [|e a IH]; simpl; [reflexivity|].
-  destruct e as [v s ok|r ok]; simpl; rewrite IH; reflexivity.
+  destruct e as [v i s ok|r ok]; simpl; rewrite IH; reflexivity.
 Qed.
 
 Lemma C12_no_panic_lemma f t fs :
